@@ -57,12 +57,30 @@ def parse_line(ln):
 
 
 def run_shard(exe, flavour, seed, n, shard, nshards, prefix, exact, timeout):
-    cmd = [exe, "--seed", str(seed), "--n", str(n), "--shard", "%d/%d" % (shard, nshards)]
-    if exact:
-        cmd.append("--exact")
-    env = sanlog.env_for(flavour, prefix) if flavour == "asan" else None
-    res = core.run(cmd, timeout=timeout, env=env)
-    return res
+    """Run one shard; a kernel that kills the process (signal, fatal sanitizer report) is recorded
+    and the shard is resumed behind it.  Returns [(RunResult, log prefix)]."""
+    out = []
+    after = None
+    for attempt in range(40):
+        cmd = [exe, "--seed", str(seed), "--n", str(n), "--shard", "%d/%d" % (shard, nshards)]
+        if exact:
+            cmd.append("--exact")
+        if after:
+            cmd += ["--after", after]
+        pfx = "%s.%d" % (prefix, attempt)
+        env = sanlog.env_for(flavour, pfx) if flavour == "asan" else None
+        res = core.run(cmd, timeout=timeout, env=env)
+        out.append((res, pfx))
+        if res.timed_out or "\nZ done" in res.out:
+            break
+        last = None
+        for ln in res.out.splitlines():
+            if ln.startswith("B ptr="):
+                last = ln[6:].strip()
+        if not last or last == after:
+            break
+        after = last
+    return out
 
 
 def account(chk, tag, flavour, res, prefix, state):
@@ -122,34 +140,44 @@ def account(chk, tag, flavour, res, prefix, state):
         elif t == "Z":
             done = True
     if not done and not res.timed_out:
-        # died without our handler (ASan fatal report, OOM...)
+        # died: our signal handler names the kernel (X line); otherwise take the last started one
         if not any(ln.startswith("X ") for ln in res.out.splitlines()):
-            state["errors"].append("kdiff (%s) ended with rc=%s without finishing: %s" % (tag, res.rc, (res.err or "")[-300:]))
+            last = [ln[6:].strip() for ln in res.out.splitlines() if ln.startswith("B ptr=")]
+            asan_fatal = flavour == "asan" and any(k.startswith("asan|") for k, _ in sanlog.collect(prefix))
+            if last and not asan_fatal:
+                key = "C07|crash|%s" % last[-1]
+                if key not in state["seen"]:
+                    state["seen"].add(key)
+                    chk.violation(key, "kdiff (%s) died with rc=%s while comparing %s: %s"
+                                  % (tag, res.rc, last[-1], (res.err or "")[-300:]),
+                                  {"kernel": last[-1], "variant": "", "seed": state["seed"], "case": -1,
+                                   "exact": state["exact"].get(tag, False), "flavour": flavour}, name=key)
+            elif not last:
+                state["errors"].append("kdiff (%s) ended with rc=%s without finishing: %s"
+                                       % (tag, res.rc, (res.err or "")[-300:]))
     if res.timed_out:
         chk.inconclusive_case("kdiff shard watchdog fired (%s)" % tag, {"tail": res.out[-500:]})
-    # sanitizer reports (ASan only; UBSan reports inside kernels are C11's subject and only counted)
+    # sanitizer reports.  The harness prints an "A" line (kernel, variant, case, arguments) from
+    # __asan_on_error for every ASan report, so reports are keyed by the kernel that was running;
+    # the sanitizer log supplies the report text.  UBSan reports inside kernels are counted only
+    # (they are C11's subject).
     if flavour == "asan":
-        marks = state["asan_marks"]
-        for key, excerpt in sanlog.collect(prefix):
-            if key.startswith("asan|"):
-                parts = key.split("|")
-                fn = parts[2] if len(parts) > 2 else "?"
-                mark = None
-                for m in marks:
-                    if m.get("inkernel") == "1":
-                        mark = m
-                        break
-                kernel_fn = mark["fn"] if mark else fn
-                vkey = "C07|asan|%s" % kernel_fn
-                if vkey not in state["seen"]:
-                    state["seen"].add(vkey)
-                    case = {"kernel": mark["ptr"] if mark else "?", "variant": kernel_fn, "seed": state["seed"],
-                            "case": int(mark["case"]) if mark else -1, "exact": True, "flavour": "asan",
-                            "args": mark.get("args", "") if mark else "", "asan_key": key}
-                    chk.violation(vkey, "ASan report %s while %s ran on exact-size buffers; arguments: %s\n%s"
-                                  % (key, kernel_fn, case["args"], excerpt[:600]), case, name=vkey)
-            elif key.startswith("ubsan|"):
-                chk.bump("ubsan_reports_in_kernels_not_judged_here", 1)
+        reports = sanlog.collect(prefix)
+        asan_reports = [(k, ex) for k, ex in reports if k.startswith("asan|")]
+        chk.bump("ubsan_reports_in_kernels_not_judged_here", sum(1 for k, _ in reports if k.startswith("ubsan|")))
+        marks = [m for m in state["asan_marks"] if m.get("inkernel") == "1"]
+        if asan_reports and not marks:
+            state["errors"].append("ASan report outside a kernel call: %s" % asan_reports[0][0])
+        for i, m in enumerate(marks):
+            vkey = "C07|asan|%s" % m["fn"]
+            if vkey in state["seen"]:
+                continue
+            state["seen"].add(vkey)
+            akey, excerpt = asan_reports[i] if i < len(asan_reports) else (asan_reports[-1] if asan_reports else ("asan|?", ""))
+            case = {"kernel": m["ptr"], "variant": m["fn"], "seed": state["seed"], "case": int(m["case"]), "exact": True,
+                    "flavour": "asan", "args": m.get("args", ""), "asan_key": akey}
+            chk.violation(vkey, "ASan report (%s) while %s ran on exact-size buffers, case %s; arguments: %s\n%s"
+                          % (akey, m["fn"], m["case"], m.get("args", ""), excerpt[:500]), case, name=vkey)
 
 
 def run_replay(chk, replay):
@@ -198,13 +226,12 @@ def run(chk, tier, replay=None):
         flavour, tag, exe, n, exact, s, nshards = job
         prefix = os.path.join(chk.dir, "%s-%03d" % (tag, s))
         # generous watchdog: only marks "no progress"
-        res = run_shard(exe, flavour, chk.seed, n, s, nshards, prefix, exact, timeout=3600 if quick else 6 * 3600)
-        return job, res, prefix
+        return job, run_shard(exe, flavour, chk.seed, n, s, nshards, prefix, exact, timeout=3600 if quick else 6 * 3600)
 
-    for job, res, prefix in core.pmap(one, jobs, workers=workers):
-        per = {"asan_marks": []}
-        state["asan_marks"] = []
-        account(chk, job[1], job[0], res, prefix, state)
+    for job, runs in core.pmap(one, jobs, workers=workers):
+        for res, prefix in runs:
+            state["asan_marks"] = []
+            account(chk, job[1], job[0], res, prefix, state)
 
     # ---- evidence
     ents = summary["entries"]
